@@ -184,26 +184,51 @@ def reglob(fn, over):
     return new
 
 
+def _reglob_module(mod, over, peers=()):
+    """Every function DEFINED in `mod` gets one shared copy of the module's globals with `over` applied, and the copies see
+    each other under their own names (so a private helper that a refactoring extracts or inlines needs no entry here).
+    `peers`: dicts of already re-globalised functions of other modules; a global of `mod` that is the original of one of them is
+    replaced by the re-globalised version."""
+    import inspect
+    import jax
+    g = dict(mod.__dict__)
+    g.update(over)
+    originals = {}
+    for peer in peers:
+        for fn in peer.values():
+            originals[id(fn.__wrapped_original__)] = fn
+    for k, v in list(g.items()):
+        if id(v) in originals:
+            g[k] = originals[id(v)]
+    out = {}
+    for name, fn in list(mod.__dict__.items()):
+        if inspect.isfunction(fn) and fn.__module__ == mod.__name__:
+            new = types.FunctionType(fn.__code__, g, fn.__name__, fn.__defaults__, fn.__closure__)
+            kd = dict(fn.__kwdefaults__) if fn.__kwdefaults__ else None
+            if kd:
+                for kk, vv in kd.items():
+                    if vv is jax.lax.scan:
+                        kd[kk] = scan
+                    elif vv is jax.checkpoint:
+                        kd[kk] = checkpoint
+            new.__kwdefaults__ = kd
+            new.__wrapped_original__ = fn
+            g[name] = new
+            out[name] = new
+    return out
+
+
 def real_functions():
-    """re-globalised real functions of integrate.py / jax_utils.py (read from /repo's working tree on every run)"""
+    """re-globalised real functions of integrate.py / jax_utils.py (read from /repo's working tree on every run): ALL functions
+    defined in the two modules, with jnp / jax replaced by the shim, lax.scan by a loop and jax.checkpoint by the identity"""
     import jaxley  # noqa
     import jaxley.utils.jax_utils as JU
     JI = sys.modules["jaxley.integrate"]
-    inner = reglob(JU._inner_nested_scan, {"jax": jaxshim, "jnp": jnp})
-    inner.__globals__["_inner_nested_scan"] = inner
-    ncs = reglob(JU.nested_checkpoint_scan, {"jax": jaxshim, "jnp": jnp, "_inner_nested_scan": inner})
-    kd = dict(JU.nested_checkpoint_scan.__kwdefaults__ or {})
-    if "scan_fn" in kd:
-        kd["scan_fn"] = scan
-    if "checkpoint_fn" in kd:
-        kd["checkpoint_fn"] = checkpoint
-    ncs.__kwdefaults__ = kd
-    bif = reglob(JI.build_init_and_step_fn, {"jnp": jnp})
-    add_s = reglob(JI.add_stimuli, {"jnp": jnp})
-    add_c = reglob(JI.add_clamps, {"jnp": jnp})
-    integ = reglob(JI.integrate, {"jnp": jnp, "nested_checkpoint_scan": ncs, "build_init_and_step_fn": bif, "add_stimuli": add_s, "add_clamps": add_c})
-    return {"integrate": integ, "build_init_and_step_fn": bif, "add_stimuli": add_s, "add_clamps": add_c, "nested_checkpoint_scan": ncs,
-            "_inner_nested_scan": inner}
+    ju = _reglob_module(JU, {"jax": jaxshim, "jnp": jnp})
+    ji = _reglob_module(JI, {"jnp": jnp}, peers=(ju,))
+    out = dict(ju)
+    out.update(ji)
+    return out
 
 
 # ---- external inputs as symbols -------------------------------------------------------------------------------------
